@@ -141,7 +141,8 @@ func runFDCase(c fdCase) (sig, msg string) {
 func init() {
 	register("C12", func(args []string) int {
 		run := evid.NewRun("C12", "model_checking")
-		gaps := []int64{1, 2, 5, 50}
+		// the long gap is an outage of thousands of bootstrap intervals
+		gaps := []int64{1, 2, 5, 5000}
 		windows := []int{1, 2, 3, 4}
 		extra := 4
 		if run.Thorough() {
@@ -203,6 +204,16 @@ func init() {
 			}
 		}
 		run.Set("heartbeat_shapes", len(shapes))
+		// a peer that falls silent is always eventually suspected by the running
+		// node - also when sending to it fails (its host is gone) rather than
+		// being silently dropped. Real gossip.New on loopback sockets.
+		for _, sendFails := range []bool{false, true} {
+			states++
+			transitions++
+			if msg := silentPeerSuspected(sendFails); msg != "" {
+				run.Violation("C12", "silent-peer-never-suspected-by-running-node", msg, map[string]any{"engine": "E3-C12", "node_case_sends_fail": sendFails})
+			}
+		}
 		run.Set("states", states)
 		run.Set("transitions", transitions)
 		run.Set("traces_validated_against_impl", seqs)
